@@ -363,3 +363,27 @@ Proof.
   repeat split. exists ds2. reflexivity.
 Qed.
 End TopicMsgs.
+
+(* ---- the lift: a message appended to a publish topic is an edit of C13_full (J5sEdit.EAppendTopicMsg,
+   te_publish_app, J5sExtProofs.accept_topic_ext_app).  Witness: the one-message topic Orders. *)
+Definition w_orders : bundle :=
+  [BJ (mkJfile [b "foo"; b "v1"] (b "a") []
+     [ETopic (TPublish (b "Orders") [mkTmsg (Some (b "OrderPlaced")) (mkprops [w_sfield "orderId"])])])].
+Definition w_orders_edits : list edit :=
+  [EAppendTopicMsg 0 0 (mkTmsg (Some (b "OrderShipped")) (mkprops [w_sfield "orderId"]));
+   EAppendTopicMsg 0 0 (mkTmsg (Some (b "OrderPaid")) PNil);
+   EAppendTopicField 0 0 0 (w_sfield "note")].
+
+Theorem topic_message_append_example :
+  valid w_orders = true /\ valid (apply_edits w_orders w_orders_edits) = true /\
+  (exists x, In x w_orders /\ bfile_pkg x = b "foo.v1") /\
+  exists D D', compile w_orders (b "foo.v1") = Ok D /\ compile (apply_edits w_orders w_orders_edits) (b "foo.v1") = Ok D' /\
+    files_ext_b D D' = true /\
+    map (fun s => map me_name (ds_methods s)) (flat_map fl_svcs D) = [[b "OrderPlaced"]] /\
+    map (fun s => map me_name (ds_methods s)) (flat_map fl_svcs D') = [[b "OrderPlaced"; b "OrderShipped"; b "OrderPaid"]].
+Proof.
+  split; [vm_compute; reflexivity|]. split; [vm_compute; reflexivity|].
+  split; [eexists; split; [left; reflexivity|vm_compute; reflexivity]|].
+  eexists. eexists. split; [vm_compute; reflexivity|]. split; [vm_compute; reflexivity|].
+  repeat split; vm_compute; reflexivity.
+Qed.
